@@ -157,7 +157,10 @@ func (m *c09mon) Post(s *sim.Sim, st *sim.Step) []*sim.Violation {
 		// a login of any kind in this request starts the idle clock
 		m.last[b] = rec.Now
 		m.how[b] = flowOf(s, rec)
-		m.stats.Count("clock-started:" + flowOf(s, rec))
+		if m.how[b] == "" && sim.IssuedCookie(rec) != "" && rec.SessIn["uid"] == "" {
+			m.how[b] = "remember-cookie"
+		}
+		m.stats.Count("clock-started:" + m.how[b])
 	case uidIn != "" && had && flushed(rec) && rec.Now.Sub(la) <= E-time.Second:
 		m.last[b] = rec.Now
 	case uidIn != "" && had && rec.Now.Sub(la) > E-time.Second && rec.Now.Sub(la) <= E:
@@ -217,10 +220,47 @@ var c09Profile = &sim.Profile{
 	MinLen: 25, MaxLen: 60,
 }
 
+// c09RememberTemplates: configurations with remember.Middleware in front of expire.Middleware.
+var c09RememberTemplates = []sim.Template{
+	{Name: "remembered-session-idles-out", F: func(s *sim.Sim) []*sim.Action {
+		// a session rebuilt from the remember cookie (half-authenticated, and it stays half-authenticated
+		// for as long as nobody logs in again) idles out like any other; with the cookie gone from the
+		// browser, or its tokens purged, nothing brings it back
+		if !s.Cfg.RememberBeforeExpire {
+			return nil
+		}
+		v := findAcct(s, func(u *world.User) bool { return u.TOTPSecretKey == "" && u.SMSPhone == "" && u.Confirmed })
+		if v < 0 {
+			return nil
+		}
+		b := s.R.Intn(len(s.Br))
+		E := s.W.AB.Config.Modules.ExpireAfter
+		sc := []*sim.Action{act("login", b, v, "ok", "rm", "true"), act("dropsid", b, -9, ""), act("visit", b, -9, "", "route", "/public"),
+			act("advance", b, -9, "", "d", pickD(s.R, E/2, time.Second).String()), act("visit", b, -9, "", "route", "/protected/bare")}
+		if s.R.Intn(3) != 0 {
+			sc = append(sc, act("steal", b, -9, "raw", "val", "")) // the cookie is gone from this browser
+		}
+		sc = append(sc, act("advance", b, -9, "", "d", pickD(s.R, E+time.Second, 3*E, 10*E).String()),
+			act("visit", b, -9, "", "route", pickS(s.R, "/public", "/protected/bare", "/protected/plain")), act("visit", b, -9, "", "route", "/public"))
+		return sc
+	}},
+}
+
+var c09RememberProfile = func() *sim.Profile {
+	p := *c09Profile
+	p.W = map[string]int{}
+	for k, v := range c09Profile.W {
+		p.W[k] = v
+	}
+	p.W["dropsid"], p.W["steal"] = 6, 2
+	p.Templates, p.TplProb = c09RememberTemplates, 0.5
+	return &p
+}()
+
 func init() {
 	register(&Check{
 		ID: "C09", Level: "exploration",
-		Rule:  "expire middleware installed; ExpireAfter in {1s(ish),90s,1h,37h}; request sequences of logged-in browsers separated by clock advances from {1s,…,E/2,E-2s,E-1s,E-1ns,E,E+1ns,E+1s,3E}; whitelists of 0/1/3 application keys with values that must survive; sessions created by password, OTP, recover-and-login, TOTP/SMS second step, OAuth2 and registration; expired requests that are themselves logins. The ledger keeps each browser's last authenticated activity (started by ANY login). Oracle per request of a logged-in browser with true gap g: g>E => the downstream probe sees no user and no non-whitelisted key, and the response leaves only whitelisted keys (+flash, + keys this very request put after the wipe); g<=E-1s => served as that user and last_action==now; the 1-second band below E (stamp resolution) is not judged. distinct_nontrivial = distinct (action, E, gap class, whitelist size, session state, login kind, probe ran, uid after) signatures.",
+		Rule:  "expire middleware installed; ExpireAfter in {1s(ish),90s,1h,37h}; request sequences of logged-in browsers separated by clock advances from {1s,…,E/2,E-2s,E-1s,E-1ns,E,E+1ns,E+1s,3E}; whitelists of 0/1/3 application keys with values that must survive; sessions created by password, OTP, recover-and-login, TOTP/SMS second step, OAuth2, registration and — in a quarter of the units, where remember.Middleware sits in front of expire.Middleware — by the remember cookie (half-authenticated sessions that idle out with the cookie gone from the browser); expired requests that are themselves logins. The ledger keeps each browser's last authenticated activity (started by ANY login). Oracle per request of a logged-in browser with true gap g: g>E => the downstream probe sees no user and no non-whitelisted key, and the response leaves only whitelisted keys (+flash, + keys this very request put after the wipe); g<=E-1s => served as that user and last_action==now; the 1-second band below E (stamp resolution) is not judged. distinct_nontrivial = distinct (action, E, gap class, whitelist size, session state, login kind, probe ran, uid after) signatures.",
 		Units: func(t string) int { return tierN(t, 800, 40000) },
 		Run: func(c *RunCtx, unit int) {
 			r := Rng(c.Seed, "C09", unit)
@@ -236,15 +276,24 @@ func init() {
 				}
 			}
 			cfg.Modules = mods
+			prof := c09Profile
+			if unit%4 == 3 {
+				// remember.Middleware in front of expire.Middleware
+				if !cfg.Has("remember") {
+					cfg.Modules = append(cfg.Modules, "remember")
+				}
+				cfg.RememberBeforeExpire = true
+				prof = c09RememberProfile
+			}
 			s, err := sim.New(cfg, r, sim.SeedOpt{Accounts: 3, Browsers: 2, TwoFAProb: 0.3})
 			if err != nil {
 				c.Stats.Inconclusive = append(c.Stats.Inconclusive, "world: "+err.Error())
 				return
 			}
-			sim.RunHistory(s, c09Profile, []sim.Monitor{&c09mon{stats: c.Stats, last: map[int]time.Time{}, how: map[int]string{}}}, c.Stats, unit)
+			sim.RunHistory(s, prof, []sim.Monitor{&c09mon{stats: c.Stats, last: map[int]time.Time{}, how: map[int]string{}}}, c.Stats, unit)
 		},
 		Floors: func(t string) map[string]int {
-			return map[string]int{"expired-request": 200, "expired-request-probed": 50, "live-request": 500, "clock-started:login": 100, "clock-started:oauth_cb": 5, "clock-started:register": 5}
+			return map[string]int{"expired-request": 200, "expired-request-probed": 50, "live-request": 500, "clock-started:login": 100, "clock-started:oauth_cb": 5, "clock-started:register": 5, "clock-started:remember-cookie": 20}
 		},
 		Assumptions: []string{"last_action has 1-second resolution (RFC3339): true gaps in (ExpireAfter-1s, ExpireAfter] are unspecified and not judged", "flash keys written by the response itself are exempt from the wipe"},
 	})
